@@ -781,6 +781,58 @@ def stress_real_threads(ctx):
                 ctx.violation(f'C20/{store}-lost-node-under-real-threads', 'several threads create nodes concurrently: no node is lost',
                               dict(w, thread=t, missing=sorted(want - have)[:5], missing_count=len(want - have)))
                 break
+    # one thread copies a graph again and again (clone = extract + import under a new id) while two others add nodes to it
+    for store in ('shared', 'disjoint'):
+        imp, cls = imps[store]
+        imp.delete_all_graphs()
+        base = cls(graph_id='S', importer=imp)
+        for i in range(300):
+            base.add_node(node_id=f'base-{i}', label='NetworkNode')
+        errors, clones = [], []
+        stop = threading.Event()
+
+        def adder(t):
+            g = cls(graph_id='S', importer=type(imp)())
+            for i in range(K // 2):
+                try:
+                    g.add_node(node_id=f'a{t}-{i}', label='NetworkNode')
+                except Exception as e:
+                    errors.append(('add_node', t, i, type(e).__name__, str(e)[:80]))
+            stop.set()
+
+        def cloner():
+            g = cls(graph_id='S', importer=type(imp)())
+            k = 0
+            while not stop.is_set() and k < 400:
+                k += 1
+                try:
+                    g.clone_graph(new_graph_id=f'copy-{k}')
+                    clones.append(k)
+                except Exception as e:
+                    errors.append(('clone_graph', k, type(e).__name__, str(e)[:80]))
+        ths = [threading.Thread(target=adder, args=(t,), daemon=True) for t in range(2)] + [threading.Thread(target=cloner, daemon=True)]
+        sys.setswitchinterval(1e-6)
+        try:
+            for th in ths:
+                th.start()
+            for th in ths:
+                th.join(timeout=120)
+        finally:
+            sys.setswitchinterval(old)
+        if any(th.is_alive() for th in ths):
+            ctx.mark_inconclusive('real-thread stress (copy while adding) did not finish within the watchdog')
+            return
+        ctx.count('stress:runs')
+        ctx.count('stress:copies-made-while-adding', len(clones))
+        w = {'mode': 'real-threads', 'store': store, 'scenario': 'one thread copies graph S while two add nodes to it'}
+        if errors:
+            ctx.violation(f'C20/{store}-copying-a-graph-while-nodes-are-added-fails:{errors[0][0]}:{errors[0][-2]}', 'several threads import '
+                          '(copy) graphs and create nodes concurrently: no call fails', dict(w, failed_calls=len(errors), first=errors[:3]))
+            continue
+        have = set((canon.graph_snapshot(imp, 'S') or {'nodes': {}})['nodes'])
+        want = {f'base-{i}' for i in range(300)} | {f'a{t}-{i}' for t in range(2) for i in range(K // 2)}
+        if have != want:
+            ctx.violation(f'C20/{store}-lost-node-under-real-threads', 'no node is lost', dict(w, missing=sorted(want - have)[:5]))
     for imp, _ in imps.values():
         imp.delete_all_graphs()
 
